@@ -59,6 +59,8 @@ def unordered_inventory():
             s = l.strip()
             if s.startswith("//"):
                 continue
+            if s.startswith("use ") and not DENY.search(s):
+                continue            # an import creates no collection: its uses are listed on their own lines
             if UNORDERED.search(s) or DENY.search(s):
                 rows.append(re.sub(r"\s+", " ", s))
         if rows:
